@@ -72,8 +72,7 @@ def impl_env(extra=None):
     # (a check that sweeps thread counts overrides these through extra_env)
     for var, val in (("OMP_NUM_THREADS", "2"), ("OPENBLAS_NUM_THREADS", "2"),
                      ("MKL_NUM_THREADS", "2"), ("NUMBA_NUM_THREADS", "4"),
-                     ("TF_NUM_INTRAOP_THREADS", "2"), ("TF_NUM_INTEROP_THREADS", "2"),
-                     ("XLA_FLAGS", "--xla_cpu_multi_thread_eigen=false intra_op_parallelism_threads=2")):
+                     ("TF_NUM_INTRAOP_THREADS", "2"), ("TF_NUM_INTEROP_THREADS", "2")):
         env.setdefault(var, val)
     if extra:
         env.update(extra)
